@@ -258,10 +258,21 @@ class C06(Check):
         pfocus = not focus and bool(multi) and rng.random() < 0.06
         if pfocus:
             key = rng.choice(multi)
+        # another 5 %: documents that declare namespaces below the root element, seen through the resource-level
+        # observations (the declarations of a streamed chunk live only as long as the chunk)
+        nsfocus = not focus and not pfocus and rng.random() < 0.05
+        if nsfocus:
+            if not hasattr(self, '_nsdocs'):
+                self._nsdocs = [(k, i) for k in self.keys for i, d in enumerate(self.entries[k].docs)
+                                if d.data.count(b'xmlns') > d.data[:d.data.find(b'>', d.data.find(b'?>') + 2)].count(b'xmlns')]
+            nsfocus = bool(self._nsdocs)
         e = self.entries[key]
         di = rng.randrange(len(e.docs))
+        if nsfocus:
+            key, di = rng.choice(self._nsdocs)
+            e = self.entries[key]
         data = e.docs[di].data
-        depth = 1 if focus or pfocus else rng.choice([1, 1, 1, 1, 2, 3])
+        depth = 1 if focus or pfocus or nsfocus else rng.choice([1, 1, 1, 1, 2, 3])
         apis = ['iter_errors', 'iter_errors', 'is_valid', 'to_json', 'to_json', 'to_json_strict', 'to_json_skip',
                 'res_depth', 'res_iter', 'res_ns', 'res_loc', 'valid_twice', 'to_json_fp']
         if e.family.paths:
@@ -269,6 +280,8 @@ class C06(Check):
         api = rng.choice(['iter_errors', 'is_valid']) if focus else rng.choice(apis)
         if pfocus:
             api = rng.choice(['iter_decode_path', 'res_find'])
+        if nsfocus:
+            api = rng.choice(['res_ns', 'res_ns', 'res_iter', 'res_depth', 'iter_errors', 'to_json'])
         if e.docs[di].kind == 'fault:double' and api.startswith('to_json'):
             # two faults x lazy decoding multiplies the listed lazy-decode findings into many surface forms
             # without adding information: double-fault documents go through validation only
@@ -451,6 +464,13 @@ class C06(Check):
             base.update(clause='iteration')
             if api == 'res_depth':
                 base['mode'] = op.get('mode')
+            if api == 'res_ns':
+                # which namespaces are found is one thing, which prefix each of them gets another
+                try:
+                    gu, ru = sorted({u for _, u in g}), sorted({u for _, u in r})
+                    base['diff'] = 'prefix-assignment' if gu == ru else 'namespaces-missing' if set(gu) < set(ru) else 'namespaces'
+                except (TypeError, ValueError):
+                    base['diff'] = 'shape'
             return base
         return None
 
@@ -499,7 +519,11 @@ def data_diff(lazy, eager):
     """Coarse class of a decoded-data difference (part of the violation's identity)."""
     if isinstance(lazy, dict) and isinstance(eager, dict):
         lk, ek = set(lazy), set(eager)
-        if lk < ek and all(lazy[k] == eager[k] for k in lk):
+        def part_of(lv, ev):
+            # the lazy value holds some of the same-named children of the eager value
+            return lv == ev or (isinstance(ev, list) and (lv in ev or (isinstance(lv, list) and all(x in ev for x in lv))))
+        if lk <= ek and lazy != eager and all(k.startswith('@') and lazy[k] == eager[k] or not k.startswith('@') and part_of(lazy[k], eager[k])
+                           for k in lk):
             return 'root-children-missing'
         if lk == ek:
             def flat(d):
